@@ -1,7 +1,16 @@
 // C12 harness: replays Symbolize.tla's behaviours on the real
 // symbolizer.Symbolizer with a scripted ObjTool/ObjFile and a scripted symbol
 // service (HTTP RoundTripper), records the profile before and after as tables
-// for TraceSymbolize.tla. Also runs the end-to-end path through the driver.
+// for TraceSymbolize.tla.
+//
+// A case is a profile and a list of run scripts (Symbolize.tla: one run over
+// the whole catalogue, SeqLen runs for the sequence catalogue). The runs are
+// replayed one after the other on the SAME profile object; every run is one
+// event (before/after tables of that run, its position in the sequence) and
+// the library's own verdict on the result - CheckValid, Write + Parse, every
+// Line.Function an element of prof.Function - is recorded in the event for
+// TraceSymbolize.tla (clause wellformed) and reported directly with the
+// library's message.
 package main
 
 import (
@@ -16,14 +25,27 @@ import (
 	"github.com/google/pprof/internal/plugin"
 	"github.com/google/pprof/internal/symbolizer"
 	"github.com/google/pprof/internal/zzverif/vlib"
+	"github.com/google/pprof/profile"
 )
 
+// script = the answers of the plug-ins during one run (Script in Symbolize.tla)
+type script struct {
+	Mode    string   `json:"mode"`
+	Opens   []string `json:"opens"`
+	Lines   []string `json:"lines"`
+	Remotes []string `json:"remotes"`
+
+	same plugin.Frame // the representative of the answer class "same" for this run
+}
+
 type scase struct {
-	Prof    vlib.Table `json:"prof"`
-	Mode    string     `json:"mode"`
-	Opens   []string   `json:"opens"`
-	Lines   []string   `json:"lines"`
-	Remotes []string   `json:"remotes"`
+	Prof vlib.Table `json:"prof"`
+	Runs []script   `json:"runs"`
+	// a case with one run may be written flat (replay files of earlier versions)
+	Mode    string   `json:"mode"`
+	Opens   []string `json:"opens"`
+	Lines   []string `json:"lines"`
+	Remotes []string `json:"remotes"`
 }
 
 type symEvent struct {
@@ -36,6 +58,15 @@ type symEvent struct {
 	Before vlib.Table `json:"before"`
 	After  vlib.Table `json:"after"`
 	Err    bool       `json:"err"`
+	// position in a sequence of runs on one profile: the events of one sequence are consecutive, step = 1..of
+	Seq  int `json:"seq"`
+	Step int `json:"step"`
+	Of   int `json:"of"`
+	// the library's verdict on the result: CheckValid ("" = accepted, else the class of its complaint), Write + Parse
+	// succeeded, every Line.Function is an element of prof.Function (pointer identity) with a unique non-zero id
+	CV      string `json:"cv"`
+	Reparse bool   `json:"reparse"`
+	InTable bool   `json:"intable"`
 }
 
 var run *vlib.Run
@@ -51,7 +82,7 @@ func (u *ui) SetAutoComplete(func(string) string) {}
 
 // scripted object files
 type objTool struct {
-	c     *scase
+	c     *script
 	files map[string]int // mapping file -> index 0/1
 	addrs map[uint64]int // location address -> location index 0..2 (first match)
 }
@@ -102,13 +133,16 @@ func (f *objFile) SourceLine(addr uint64) ([]plugin.Frame, error) {
 	case "hole":
 		// an inline stack whose caller is unknown: a frame with no function, file or line
 		return []plugin.Frame{{Func: fmt.Sprintf("inl_%x", addr), File: "i.c", Line: 9}, {}}, nil
+	case "same":
+		// a frame identical in every attribute to a function the profile already has (sameFrame)
+		return []plugin.Frame{f.t.c.same}, nil
 	}
 	return []plugin.Frame{{Func: fmt.Sprintf("sym_%x", addr), File: "s.c", Line: 4, Column: 2}}, nil
 }
 
 // scripted symbol service
 type transport struct {
-	c    *scase
+	c    *script
 	call int
 }
 
@@ -168,18 +202,90 @@ func forceOf(mode string) (force, none bool) {
 	return force, false
 }
 
+// sameFrame is the representative of the answer class "same" (Symbolize.tla): the frame addr2line would report for
+// a function that is ALREADY in the profile's table - the first one whose name equals its system name (what
+// symbolizeOneMapping builds: Name = SystemName = frame.Func, Filename, StartLine), all attributes equal. With no such
+// function: an inline function of a shared header, the same frame for every location of the run.
+func sameFrame(p *profile.Profile) plugin.Frame {
+	for _, f := range p.Function {
+		if f != nil && f.Name != "" && f.Name == f.SystemName {
+			return plugin.Frame{Func: f.Name, File: f.Filename, Line: 6, StartLine: int(f.StartLine)}
+		}
+	}
+	return plugin.Frame{Func: "shared_inline", File: "hdr.h", Line: 6, StartLine: 5}
+}
+
+// accepted asks the library about the result of a run. It returns CheckValid's complaint (nil = valid), whether
+// Write + Parse succeed (and why not) and whether every Line.Function is one of the objects in p.Function, each with
+// a non-zero id that no other entry has. fatal = the profile object must not be used any more (a panic inside the
+// encoder leaves its mutex locked).
+func accepted(p *profile.Profile) (cv error, reparse string, intable string, fatal bool) {
+	cv = p.CheckValid()
+	inTable := map[*profile.Function]bool{}
+	ids := map[uint64]bool{}
+	for _, f := range p.Function {
+		if f == nil {
+			intable = "nil entry in the function table"
+			continue
+		}
+		if f.ID == 0 || ids[f.ID] {
+			intable = fmt.Sprintf("function table entry %q has the zero or duplicate id %d", f.Name, f.ID)
+		}
+		ids[f.ID] = true
+		inTable[f] = true
+	}
+	for _, l := range p.Location {
+		for _, ln := range l.Line {
+			if ln.Function == nil {
+				intable = fmt.Sprintf("location %d has a line without a function", l.ID)
+			} else if !inTable[ln.Function] {
+				intable = fmt.Sprintf("location %d: function %q (id %d) is not an entry of the function table", l.ID, ln.Function.Name, ln.Function.ID)
+			}
+		}
+	}
+	var b bytes.Buffer
+	func() {
+		defer func() {
+			if r := recover(); r != nil {
+				reparse, fatal = fmt.Sprint("write panics: ", r), true
+			}
+		}()
+		if err := p.WriteUncompressed(&b); err != nil {
+			reparse = "write: " + err.Error()
+		}
+	}()
+	if reparse == "" {
+		func() {
+			defer func() {
+				if r := recover(); r != nil {
+					reparse = fmt.Sprint("parse panics: ", r)
+				}
+			}()
+			if _, err := profile.ParseData(b.Bytes()); err != nil {
+				reparse = "parse: " + err.Error()
+			}
+		}()
+	}
+	return
+}
+
 func main() {
 	run = vlib.NewRun("C12")
 	n := 0
-	run.EachCase(func(i int, raw json.RawMessage) {
-		var c scase
-		if err := json.Unmarshal(raw, &c); err != nil {
-			run.Infra("case decode: " + err.Error())
-			return
+	seqs := 0
+	replay := func(i int, raw json.RawMessage, c *scase) {
+		for ri := range c.Runs {
+			if r := &c.Runs[ri]; len(r.Opens) < 2 || len(r.Lines) < 3 || len(r.Remotes) < 2 {
+				run.Infra(fmt.Sprintf("case %d run %d: incomplete script %+v", i, ri+1, *r))
+				return
+			}
 		}
 		p := vlib.TConc{}.Profile(c.Prof)
-		before := vlib.TableOf(p)
-		tool := &objTool{c: &c, files: map[string]int{}, addrs: map[uint64]int{}}
+		if err := p.CheckValid(); err != nil {
+			run.Infra(fmt.Sprintf("case %d: the catalogue profile is not valid: %v", i, err))
+			return
+		}
+		tool := &objTool{files: map[string]int{}, addrs: map[uint64]int{}}
 		sources := plugin.MappingSources{}
 		for mi, m := range p.Mapping {
 			if mi < 2 {
@@ -202,45 +308,98 @@ func main() {
 				tool.addrs[l.Address] = li
 			}
 		}
-		u := &ui{}
-		s := &symbolizer.Symbolizer{Obj: tool, UI: u, Transport: &transport{c: &c}}
-		var err error
-		var pv interface{}
-		func() {
-			defer func() { pv = recover() }()
-			err = s.Symbolize(c.Mode, sources, p)
-		}()
-		key := fmt.Sprintf("%s|%v|%v|%v|%d", c.Mode, c.Opens, c.Lines, c.Remotes, len(c.Prof.Fns))
-		run.Count(key)
-		if pv != nil {
-			run.Violate("symbolize", "panic:"+c.Mode, fmt.Sprint(pv), raw, nil)
-			return
+		seqs++
+		if len(c.Runs) > 1 {
+			run.Counter("sequences", 1)
 		}
-		force, none := forceOf(c.Mode)
-		ev := symEvent{Op: "symbolize", N: n, Mode: c.Mode, Force: force, None: none, Remote: usesRemote(c.Mode), Before: before, After: vlib.TableOf(p), Err: err != nil}
-		run.Event(ev)
-		run.Aux(map[string]interface{}{"n": n, "case": json.RawMessage(raw)})
-		n++
-		// the driver re-checks validity after symbolization: a successful call must leave a valid profile
-		if err == nil {
-			if verr := p.CheckValid(); verr != nil {
-				run.Violate("symbolize", "invalid-after:"+validClass(verr), fmt.Sprintf("mode %q: %v", c.Mode, verr), raw, nil)
-			}
-			var b bytes.Buffer
+		// the runs of the case, one after the other on the same profile; the mappings and the addresses (what the
+		// scripted plug-ins key their answers on) are the same in every run or the frame condition has been violated
+		for ri := range c.Runs {
+			r := &c.Runs[ri]
+			r.same = sameFrame(p)
+			tool.c = r
+			before := vlib.TableOf(p)
+			u := &ui{}
+			s := &symbolizer.Symbolizer{Obj: tool, UI: u, Transport: &transport{c: r}}
+			var err error
+			var pv interface{}
 			func() {
-				defer func() {
-					if r := recover(); r != nil {
-						run.Violate("symbolize", "unwritable-after", fmt.Sprint(r), raw, nil)
-					}
-				}()
-				p.Write(&b)
+				defer func() { pv = recover() }()
+				err = s.Symbolize(r.Mode, sources, p)
 			}()
+			key := fmt.Sprintf("%s|%v|%v|%v|%d", r.Mode, r.Opens, r.Lines, r.Remotes, len(before.Fns))
+			if len(c.Runs) > 1 {
+				key = fmt.Sprintf("run%d|%s", ri+1, key)
+			}
+			run.Count(key)
+			where := r.Mode
+			if len(c.Runs) > 1 {
+				where = fmt.Sprintf("run%d:%s", ri+1, r.Mode)
+			}
+			if pv != nil {
+				run.Violate("symbolize", "panic:"+where, fmt.Sprint(pv), raw, nil)
+				break
+			}
+			cv, reparse, intable, fatal := accepted(p)
+			force, none := forceOf(r.Mode)
+			ev := symEvent{Op: "symbolize", N: n, Mode: r.Mode, Force: force, None: none, Remote: usesRemote(r.Mode), Before: before, After: vlib.TableOf(p), Err: err != nil,
+				Seq: seqs, Step: ri + 1, Of: len(c.Runs), Reparse: reparse == "", InTable: intable == ""}
+			if cv != nil {
+				ev.CV = validClass(cv)
+			}
+			run.Event(ev)
+			run.Aux(map[string]interface{}{"n": n, "case": json.RawMessage(raw)})
+			n++
+			// the driver re-checks validity after symbolization and writes the profile (-proto, the saved copy of a
+			// fetched profile): the result must be a valid profile that can be read back, whatever the plug-ins answered
+			if cv != nil {
+				run.Violate("symbolize", "invalid-after:"+validClass(cv), fmt.Sprintf("%s (returned error: %v): %v", where, err, cv), raw, nil)
+			}
+			if intable != "" {
+				run.Violate("symbolize", "function-not-in-table", fmt.Sprintf("%s: %s", where, intable), raw, nil)
+			}
+			if reparse != "" {
+				sig := "unparsable-after"
+				if fatal {
+					sig = "unwritable-after"
+				}
+				run.Violate("symbolize", sig, fmt.Sprintf("%s: %s", where, reparse), raw, nil)
+			}
+			if fatal {
+				break
+			}
 		}
-		if i%2500 == 0 {
+		if i%2500 == 0 || (len(c.Runs) > 1 && i%1000 == 0) {
 			run.Sample(json.RawMessage(raw))
 		}
+	}
+	// the sequences first, then the single runs (the trace reader shows the first rejected events of a trace only, and
+	// what a single run shows is shown again by the first run of a sequence, not the other way round)
+	type deferred struct {
+		i   int
+		raw json.RawMessage
+		c   *scase
+	}
+	var singles []deferred
+	run.EachCase(func(i int, raw json.RawMessage) {
+		c := &scase{}
+		if err := json.Unmarshal(raw, c); err != nil {
+			run.Infra("case decode: " + err.Error())
+			return
+		}
+		if len(c.Runs) == 0 {
+			c.Runs = []script{{Mode: c.Mode, Opens: c.Opens, Lines: c.Lines, Remotes: c.Remotes}}
+		}
+		if len(c.Runs) == 1 {
+			singles = append(singles, deferred{i, append(json.RawMessage{}, raw...), c})
+			return
+		}
+		replay(i, raw, c)
 	})
-	run.Finish("behaviours = Symbolize.tla: 16 catalogue profiles (function tables {}, {2}, {5,1}, {1,3} with mangled / C++-looking / '(a::b)' / no-system-name names; mapping pairs: unsymbolised+symbolised, two binaries sharing an address range, fake + URL-sourced, two unsymbolised; addresses at mapping start and limit-1) x 14 mode strings x scripted answers of the object-file plug-in (open ok/error/build-id mismatch; SourceLine one frame/two inlined/none/error per location) and of the symbol service (all/subset/unasked addresses/garbage/error/empty names); non-trivial = behaviour in which at least one plug-in is consulted, distinct by (mode, script, function table)")
+	for _, d := range singles {
+		replay(d.i, d.raw, d.c)
+	}
+	run.Finish("behaviours = Symbolize.tla: catalogue profiles (function tables {}, {2}, {5,1}, {1,3}, {2,4} with mangled / C++-looking / '(a::b)' / no-system-name names; mapping pairs: unsymbolised+symbolised, two binaries sharing an address range, fake + URL-sourced, two unsymbolised, partly symbolised, one binary twice, no range; addresses at mapping start and limit-1) x 16 mode strings x scripted answers of the object-file plug-in (open ok/error/build-id mismatch; SourceLine one frame/two inlined/none/error/unknown caller/identical to a function of the table per location) and of the symbol service (all/subset/unasked addresses/garbage/error/empty names); plus every sequence of 3 runs over the sequence scripts (plain, plain with other answers, forced with an object file that answers nothing / the same function / something else, forced local+remote, remote alone, forced with nothing from anywhere) on the sequence profiles, each run one event; non-trivial = behaviour in which at least one plug-in is consulted, distinct by (position in the sequence, mode, script, size of the function table)")
 }
 
 func validClass(err error) string {
